@@ -265,9 +265,9 @@ static void case_mismatch(Rng& rng, uint64_t index)
 static void setup()
 {
 	unsigned nsmall = ctx().thorough ? 512 : 64;
-	add_generator("all_small_orders", (uint64_t) nsmall * ctx().count(18, 36), case_small_orders);
-	add_generator("random_orders_65_512", ctx().count(384, 2000), case_random_orders);
-	add_generator("large_orders_up_to_4000", ctx().count(16, 60), case_large_orders, 600.0);
-	add_generator("mismatched_lengths", ctx().count(200, 400), case_mismatch);
+	add_generator("all_small_orders", (uint64_t) nsmall * ctx().count(18, 288), case_small_orders);
+	add_generator("random_orders_65_512", ctx().count(384, 16000), case_random_orders);
+	add_generator("large_orders_up_to_4000", ctx().count(16, 480), case_large_orders, 600.0);
+	add_generator("mismatched_lengths", ctx().count(200, 3200), case_mismatch);
 }
 VERIF_MAIN("C12", setup)
